@@ -275,8 +275,52 @@ def overlap_gene(r):
     return None
 
 
+def lattice_gene(r, k=5):
+    """a generated database whose alleles are ALL non-empty subsets of k function-altering SNPs: a sample of two copies
+    that together carry every SNP once decomposes into catalogued alleles in 2^(k-1) equally good ways (16 for k = 5);
+    every one of them, the planted one included, is a best solution"""
+    import yaml
+    for _ in range(20):
+        y = gen_gene.gen_gene(r, scale=8, pseudogene=False, deletion=False, fusions=0)
+        doc = yaml.safe_load(y)
+        seq = doc["reference"]["seq"]
+        L = len(seq)
+        used = sorted(m[0] for a in doc["alleles"].values() for m in a["mutations"] if isinstance(m[0], int))
+        cand = [p for p in range(40, L - 40) if all(abs(p - u) > 12 for u in used)]
+        sites = []
+        r.shuffle(cand)
+        for p in cand:
+            if all(abs(p - q) > 30 for q in sites):
+                sites.append(p)
+            if len(sites) == k:
+                break
+        if len(sites) < k:
+            continue
+        sites.sort()
+        snps = [[p, f"{seq[p - 1]}>{r.choice([c for c in 'ACGT' if c != seq[p - 1]])}", "-", "functional"] for p in sites]
+        name = doc["name"]
+        for sub in range(1, 2 ** k):
+            doc["alleles"][f"{name}*{100 + sub}.001"] = {"mutations": [list(snps[i]) for i in range(k) if sub >> i & 1]}
+        gd = {"kind": "generated", "genome": r.choice(["hg19", "hg38"]), "yaml": yaml.safe_dump(doc, sort_keys=False, default_flow_style=None),
+              "lattice": k}
+        try:
+            g, _ = instances.load_gene(gd)
+        except Exception:
+            continue
+        if all(str(100 + sub) in g.alleles for sub in range(1, 2 ** k)) and consistent(g):
+            return gd
+    return None
+
+
 def make_desc(r, gdesc):
     gene, gid = instances.load_gene(gdesc)
+    if gdesc.get("lattice"):
+        k = gdesc["lattice"]
+        # (a decomposition that is late in the alphabetical order of the tied solutions: all of them have to be reported)
+        pairs = sorted({tuple(sorted((x, (2 ** k - 1) ^ x))) for x in range(1, 2 ** k - 1)}, key=lambda t: tuple(sorted(str(100 + v) for v in t)))
+        a, b = pairs[r.choice([-1, -2, -3, -4])]
+        copies = [(str(100 + x), sorted(gene.alleles[str(100 + x)].minors)[0]) for x in (a, b)]
+        return {"gene": gdesc, "copies": [list(c) for c in copies], "shape": "many_tied_decompositions", "read_len": r.choice([100, 150]), "depth": r.choice([20, 30])}
     if gdesc.get("overlap"):
         dl, sn = gdesc["overlap"]
         one = ("1", sorted(gene.alleles["1"].minors)[0])
@@ -446,6 +490,8 @@ def tie(ctx):
     quick = ctx["tier"] == "quick"
     pool = [{"kind": "generated", "genome": r.choice(["hg19", "hg38"]), "yaml": gen_gene.gen_gene(r, scale=r.choice([1, 4, 8]))} for _ in range(24 if quick else 160)]
     pool += [g for g in (overlap_gene(r) for _ in range(3 if quick else 12)) if g]
+    lat = lattice_gene(r)
+    pool += [lat] * (2 if quick else 12) if lat else []
     if not quick:
         pool += [{"kind": "shipped", "name": nme, "genome": r.choice(["hg19", "hg38"])} for nme in THOROUGH_SHIPPED]
     pool = [g for g in pool if consistent(instances.load_gene(g)[0])]
